@@ -22,7 +22,8 @@ McKindsAll   == {<<k1, k2>> : k1 \in Kinds, k2 \in {"solid", "fluid", "inert"}}
 McKindsEmit  == {<<k1, k2>> : k1 \in Kinds, k2 \in {"solid", "fluid"}}
 McKindsEmitQuick == {<<k1, "solid">> : k1 \in Kinds} \cup {<<"solid", "fluid">>, <<"fluid", "fluid">>}
 McKindsDeep  == {<<"solid", "solid">>, <<"solid", "fluid">>, <<"inert", "solid">>}
-McKindsQuick == {<<"solid", "solid">>, <<"solid", "fluid">>, <<"inert", "solid">>, <<"custom", "solid">>, <<"fluid", "inert">>, <<"void", "solid">>}
+\* quick exhaustive run: the kind pairs the quick emission run (which checks the same invariants) does not contain
+McKindsQuick == {<<"solid", "inert">>, <<"fluid", "inert">>, <<"inert", "fluid">>, <<"custom", "fluid">>}
 \* <<Tin1, Thot1, Tin2, Thot2>>
 McTempsAll3  == {<<a, b, c, d>> : a \in 1..2, b \in 1..3, c \in 1..2, d \in 2..3}
 McTempsHalf3 == {<<a, b, 1, d>> : a \in 1..2, b \in 1..3, d \in 2..3}
